@@ -27,6 +27,7 @@ import (
 	fail "github.com/ebuchman/fail-test"
 	"github.com/kardiachain/go-kardia/configs"
 	"github.com/kardiachain/go-kardia/lib/common"
+	"github.com/kardiachain/go-kardia/lib/crypto"
 	"github.com/kardiachain/go-kardia/lib/log"
 	"github.com/kardiachain/go-kardia/types"
 
@@ -91,7 +92,7 @@ func (blockExec *BlockExecutor) SetEventBus(b *types.EventBus) {
 // Validation does not mutate state, but does require historical information from the stateDB,
 // ie. to verify evidence from a validator at an old height.
 func (blockExec *BlockExecutor) ValidateBlock(state LatestBlockState, block *types.Block) error {
-	hash := block.Hash()
+	hash := validationCacheKey(block)
 	if _, ok := blockExec.cache[hash]; ok {
 		return nil
 	}
@@ -101,6 +102,17 @@ func (blockExec *BlockExecutor) ValidateBlock(state LatestBlockState, block *typ
 	}
 	blockExec.cache[hash] = struct{}{}
 	return nil
+}
+
+// validationCacheKey: the header hash does not commit to LastCommit.Height/Round/BlockID (Commit.Hash covers the
+// signatures only), so the key of the validation cache has to cover them as well.
+func validationCacheKey(block *types.Block) common.Hash {
+	lc := block.LastCommit()
+	if lc == nil {
+		return block.Hash()
+	}
+	return crypto.Keccak256Hash(block.Hash().Bytes(), []byte(fmt.Sprintf("%d/%d/%d/", lc.Height, lc.Round, lc.BlockID.PartsHeader.Total)),
+		lc.BlockID.Hash.Bytes(), lc.BlockID.PartsHeader.Hash.Bytes())
 }
 
 // ApplyBlock Validates the block against the state, and saves the new state.
